@@ -37,6 +37,9 @@ package cache
 //@ ensures err != nil ==> forall p string :: {fexists[p]} p != path ==> fexists[p] == old(fexists)[p]
 //@ ensures err != nil ==> !diskOK(path) || fdata[path] == old(fdata)[path] || fdata[path] == marshalMap(mapval(c.inner))
 //@ ensures ioOK ==> err == nil
+//@ crashensures forall p string :: {fdata[p]} p != path ==> fdata[p] == old(fdata)[p]
+//@ crashensures forall p string :: {fexists[p]} p != path ==> fexists[p] == old(fexists)[p]
+//@ crashensures !diskOK(path) || fdata[path] == old(fdata)[path] || fdata[path] == marshalMap(mapval(c.inner))
 
 //@ func Exists
 //@ trusted os.Stat
@@ -50,3 +53,4 @@ package cache
 //@ ensures err == nil ==> diskOK(path) && forall k string :: {jsonGet(fdata[path], k)} jsonGet(fdata[path], k) == ""
 //@ ensures err != nil ==> !diskOK(path) || forall k string :: {jsonGet(fdata[path], k)} jsonGet(fdata[path], k) == ""
 //@ ensures ioOK ==> err == nil
+//@ crashensures !diskOK(path) || forall k string :: {jsonGet(fdata[path], k)} jsonGet(fdata[path], k) == ""
